@@ -12,7 +12,7 @@ use std::cmp::Ordering;
 pub const RULE: &str = "generated lists (length 0..40; numbers with duplicates and +-0, strings, nested lists, mixed types, tagged [key, tag] pairs), strings (ASCII, multi-byte, astral, combining sequences, empty), records and integer / negative / out-of-range index, chunk-size and slice arguments; every law of the statement is evaluated through the evaluator (built-in calls, index / field access, spread syntax) and checked on the serialised results against harness-side definitions. Non-trivial = a list of length >= 3 containing a duplicate, or a string with a non-ASCII character; distinct by the serialised case.";
 pub const ASSUMPTIONS: &[&str] = &[
     "a string's character sequence is its sequence of Unicode scalar values (what indexing and spreading expose)",
-    "fractional indices and slice bounds, negative slice bounds and out-of-range slice bounds have no law in the statement; they are exercised only for absence of crashes (C01)",
+    "fractional indices and slice bounds, negative slice bounds and out-of-range slice bounds have no law in the statement; they are exercised only for absence of crashes (C01) - except that a string and the list of its characters must agree on whether a slice beyond the end succeeds",
     "stability is observable only between elements that compare equal but are distinguishable (0 / -0, tagged pairs)",
 ];
 
@@ -371,6 +371,26 @@ impl Check for StrLaws {
             sess.bind("b", &num(b as f64));
             want(&sess, "strfn:slice", cls, "slice(s, a, b)", &MV::Str(chars[a..b].iter().collect()))?;
             want(&sess, "strfn:slice-vs-spread", cls, "slice(s, a, b) == join(slice([...s], a, b), \"\")", &MV::Bool(true))?;
+        }
+        // a string is the sequence of its characters also for bounds beyond its end: slicing it
+        // succeeds (with the same characters) exactly when slicing its spread characters does
+        for (lo, hi) in [(a, n + 1), (a.min(n), n + 1 + (c.b as usize % 7)), (0, c.s.len()), (0, c.s.len() + 1), (n, n), (n + 1, n + 2)] {
+            sess.bind("lo", &num(lo as f64));
+            sess.bind("hi", &num(hi as f64));
+            let on_string = sess.probe("slice(s, lo, hi)");
+            let on_chars = sess.probe("join(slice([...s], lo, hi), \"\")");
+            let same = match (&on_string, &on_chars) {
+                (Ok(x), Ok(y)) => x.identical(y),
+                (Err(_), Err(_)) => true,
+                _ => false,
+            };
+            if !same {
+                fail!(
+                    format!("strfn:slice-beyond-end-vs-spread:{}", cls),
+                    "s = {:?} ({} characters, {} bytes): slice(s, {}, {}) = {:?} but slicing [...s] gives {:?}",
+                    c.s, n, c.s.len(), lo, hi, on_string, on_chars
+                );
+            }
         }
         if !c.d.is_empty() {
             want(&sess, "split-join", cls, "join(split(s, d), d)", &s(&c.s))?;
